@@ -38,6 +38,7 @@ func okOrErr(err error) string {
 }
 
 type extraGetter interface{ GetExtra() (int64, error) }
+type wideGetter interface{ GetWide() string }
 
 // safely runs f, turning a panic into a marker (observation must not crash the
 // simulator; panics are judged by C05's oracle, not here).
@@ -105,6 +106,9 @@ func getterList(c psatoken.IClaims) (out []string) {
 	if x, ok := c.(extraGetter); ok {
 		v, e := x.GetExtra()
 		out = append(out, fmt.Sprintf("extra=%d/%s", v, ec(e)))
+	}
+	if x, ok := c.(wideGetter); ok {
+		out = append(out, "wide="+x.GetWide())
 	}
 	return out
 }
